@@ -32,6 +32,13 @@ use type_aliases::validate_type_alias;
 pub(crate) fn validate_ast(compilation_state: &mut CompilationState) {
     let diagnostics = &mut compilation_state.diagnostics;
 
+    // Check for type aliases and interfaces that are defined in terms of themselves.
+    // If any exist, exit early; everything after this walks through nested types and base interfaces.
+    cycle_detection::detect_recursive_aliases_and_interfaces(&compilation_state.ast, diagnostics);
+    if diagnostics.has_errors() {
+        return;
+    }
+
     // Check for any cyclic data structures. If any exist, exit early to avoid infinite loops during validation.
     cycle_detection::detect_cycles(&compilation_state.ast, diagnostics);
     if diagnostics.has_errors() {
